@@ -367,6 +367,9 @@ class CallMixin:
             p = self.payload.get(recv.ref) or self.mut_payload(recv.ref)
             p.mem = z3.Store(p.mem, self.atom_term(args[0]), z3.BoolVal(True))
             return NONE
+        if isinstance(recv, VAtom) and name in ("isascii", "isalnum", "isalpha", "isdigit", "isspace", "isupper", "islower") and not args:
+            # a predicate of an opaque string value: a function of that value, otherwise unconstrained
+            return VBool(z3.Function("atom_" + name, z3.IntSort(), z3.BoolSort())(recv.t))
         if isinstance(recv, VOpt) and isinstance(recv.some, VDict):
             self.safe_or_raise(z3.Not(recv.isnone), "AttributeError", node, fr, "call")
             recv = recv.some
@@ -377,6 +380,11 @@ class CallMixin:
             if isinstance(dflt, VList) and isinstance(self.get_payload(dflt.ref), PyListP) and not self.get_payload(dflt.ref).items:
                 return VSeqZ(z3.If(z3.Select(p.keys, k), z3.Select(p.vals, k), z3.Empty(SEQ)))
             raise Unsupported("dict.get with a non-empty default")
+        if isinstance(recv, VDict) and isinstance(self.get_payload(recv.ref), IntMapP) and name == "clear" and not args:
+            p = self.payload.get(recv.ref) or self.mut_payload(recv.ref)
+            p.keys = z3.K(z3.IntSort(), z3.BoolVal(False))
+            self.on_payload_write(recv.ref, node, fr)
+            return NONE
         if isinstance(recv, VDict) and isinstance(self.get_payload(recv.ref), IntMapP) and name == "get" and len(args) == 2:
             p = self.get_payload(recv.ref)
             k = self.as_int(args[0])
@@ -621,6 +629,11 @@ class CallMixin:
                     self.assume_axiom(z3.Implies(z3.And(c >= 128, r.b == 1), z3.Or([r0 >= 128] + [z3.And(c == a, r0 == b) for a, b in exc.items()])))
                     self.assume_axiom(r.b >= 1)
             return r
+        if name == "isascii":
+            if s.kind == "chr":
+                return VBool(z3.And(s.a >= 0, s.a < 128))
+            k = fresh("k")
+            return VBool(z3.ForAll([k], z3.Implies(z3.And(0 <= k, k < s.length()), s.char(k) < 128)))
         if name in ("isdigit", "isspace", "isalpha", "isalnum") and s.kind == "chr":
             # Unicode-aware character classes: uninterpreted predicates with the facts that matter - they contain the
             # ASCII class and are strictly larger (one witness each), so code that relies on them for ASCII-only input
@@ -636,6 +649,12 @@ class CallMixin:
                 elif name == "isspace":
                     self.assume(z3.And(f(z3.IntVal(32)), f(z3.IntVal(9)), f(z3.IntVal(0xA0)), f(z3.IntVal(0x2003))))
             return VBool(f(s.a))
+        if name in ("isdigit", "isspace", "isalpha", "isalnum", "isupper", "islower") and not args:
+            # a predicate of a string that is not a single character: a function of the string, otherwise unconstrained
+            key = ("strpred", name, repr(s))
+            if key not in self.ghost:
+                self.ghost[key] = fresh("str_" + name, "bool")
+            return VBool(self.ghost[key])
         if name == "startswith" and isinstance(args[0], VStr) and args[0].kind == "lit":
             lit = args[0].a
             return VBool(z3.And(s.length() >= len(lit), *[s.char(z3.IntVal(j)) == ord(ch) for j, ch in enumerate(lit)]))
@@ -805,6 +824,7 @@ class CallMixin:
         return self.apply_contract(c, sub, node, fr)
 
     def apply_contract(self, c, sub, node, fr):
+        self.opaque_epoch += 1
         site = fr.ords.of(node, "call")
         short = c.qualname.split(".")[-1]
         # PRE obligations
